@@ -5,6 +5,7 @@ From LokyV Require Import Lib.LedgerLib Lib.PoolLib Gen.Ledger Gen.Pool Model.Po
 From LokyV Require Model.KillLock Proofs.KillLockThm Lib.WorkerLib Gen.Worker Proofs.WorkerThm.
 From LokyV Require Model.Wake Proofs.WakeThm.
 From LokyV Require Model.FailLoop Proofs.FailLoopThm.
+From LokyV Require Model.FeederPipe Proofs.FeederPipeThm.
 Import ListNotations.
 
 (* whatever happened before (a graceful shutdown included), shutdown(kill_workers=True) sets both flags *)
@@ -93,3 +94,22 @@ Example C06_h14_bare_call :
   let s := FailLoop.run NoGuard [FailLoop.Cancel 1; FailLoop.Mgr; FailLoop.Mgr] (FailLoop.start [FailLoop.Waiting; FailLoop.Waiting; FailLoop.Waiting]) in
   FailLoop.lphase s = FailLoop.Crashed /\ FailLoop.todo s = [FailLoop.Cancelled; FailLoop.Waiting].
 Proof. vm_compute. split; reflexivity. Qed.
+
+(* ---- the feeder thread after the workers have been killed (Model/FeederPipe.v; finding H17, fixed) ----
+   a feeder blocked writing a large task into the full call-queue pipe gets EPIPE -- and ends -- only when no read end of the pipe
+   is open; the parent holds one although it never reads, and Queue.close() only queues a sentinel the blocked feeder never sees.
+   kill_workers() closes the parent's handle once every worker is dead (generated fact).  Hence: after kill_workers() and
+   call_queue.close(), in either order, whatever happened before and in between, the feeder ends at its next step and stays ended.
+   On the pinned source it stayed blocked for ever: one thread, the queue, two descriptors and three semaphores per forced shutdown
+   with a large task in flight (findings/H17_real.py). *)
+Theorem C06_forced_shutdown_ends_the_feeder_thread :
+  forall es1 es2 es3 s,
+    FeederPipe.th (FeederPipe.step kill_workers_closes_the_call_queue_reader
+                     (FeederPipe.run kill_workers_closes_the_call_queue_reader
+                        (es1 ++ FeederPipe.KillAll :: es2 ++ FeederPipe.CloseQueue :: es3) s) FeederPipe.FeederStep) = FeederPipe.Ended.
+Proof. exact FeederPipeThm.forced_shutdown_ends_the_feeder. Qed.
+Print Assumptions C06_forced_shutdown_ends_the_feeder_thread.
+Example C06_h17_blocked_for_ever :
+  let s := FeederPipe.run false [FeederPipe.FeederStep; FeederPipe.FeederStep; FeederPipe.KillAll; FeederPipe.CloseQueue] (FeederPipe.mkfp FeederPipe.Idle 2 false 1 2 true) in
+  FeederPipe.th s = FeederPipe.Blocked /\ forall e, FeederPipe.step false s e = s.
+Proof. exact FeederPipeThm.h17_blocked_for_ever. Qed.
